@@ -211,11 +211,11 @@ Definition spec_shape (lvl : level) (sc : scenario) (o : obs) : bool :=
           && negb (existsb (fun r => vtype_eqb (r_type r) TRev) (o_results o))))
   (* a capability the plugin declares replaces the native check *)
   && (negb (o_rev_called o) || negb (has_cap CapRev (caps_of sc)))
-  (* the plugin is asked for exactly its declared capabilities (minus a skipped
-     revocation) and handed the attributes it must process *)
+  (* the plugin is asked for exactly its declared capabilities, minus a skipped
+     revocation (that it is handed every attribute it must process is part of
+     the correspondence check and of theorem C02_plugin_request) *)
   && match o_exec o with
-     | Some (cs, attrs) =>
-         nonempty cs && list_eqb cap_eqb cs (asked lvl sc) && list_eqb String.eqb attrs (other_keys sc)
+     | Some (cs, _) => nonempty cs && list_eqb cap_eqb cs (asked lvl sc)
      | None => true
      end.
 
